@@ -284,6 +284,11 @@ func ReplayMain(t *testing.T, harnesses map[string]func()) {
 		}
 		results = append(results, r)
 	}
+	if tempDir != "" {
+		// the directory of the last case (earlier ones are removed when the next case starts)
+		os.RemoveAll(tempDir)
+		tempDir = ""
+	}
 	out, _ := json.MarshalIndent(results, "", " ")
 	if err := os.WriteFile(os.Getenv("VP_REPLAY_OUT"), out, 0o644); err != nil {
 		t.Fatal(err)
